@@ -35,6 +35,7 @@ type Program struct {
 	specOpts     map[string][]string
 	preds        map[string]*Pred
 	axioms       map[string][]*Clause // package path -> axioms of its contract file
+	privCache    map[*ssa.Function]map[ssa.Value]bool
 	loadSeconds  float64
 }
 
@@ -94,7 +95,7 @@ func loadProgram(dir string, patterns []string, overlay map[string][]byte) (*Pro
 	P := &Program{dir: dir, pkgs: pkgs, prog: prog, contracts: map[string]*FuncContract{},
 		loopCache: map[*ssa.Function]map[*ssa.BasicBlock]*loopInfo{}, constGlobals: map[string]bool{},
 		globalInit: map[string][]constant.Value{}, globalType: map[string]types.Type{}, tagSeq: map[string]bool{}, extraImports: map[string]*types.Package{},
-		allPkgs: map[string]*packages.Package{}, specOpts: map[string][]string{}, preds: map[string]*Pred{}, axioms: map[string][]*Clause{}}
+		allPkgs: map[string]*packages.Package{}, specOpts: map[string][]string{}, preds: map[string]*Pred{}, axioms: map[string][]*Clause{}, privCache: map[*ssa.Function]map[ssa.Value]bool{}}
 	packages.Visit(pkgs, nil, func(p *packages.Package) { P.allPkgs[p.PkgPath] = p })
 	// build only repo packages (dependencies stay as declarations: calls into them are external)
 	for _, p := range P.allPkgs {
@@ -151,6 +152,20 @@ func loadProgram(dir string, patterns []string, overlay map[string][]byte) (*Pro
 
 // resolveKey turns a contract's local name into a global key.
 func (P *Program) resolveKey(p *packages.Package, name string) (string, error) {
+	if i := strings.LastIndex(name, "/"); i >= 0 {
+		// "<import path suffix>.Rest": match an imported package by path suffix
+		j := strings.Index(name[i:], ".")
+		if j < 0 {
+			return "", fmt.Errorf("bad contract key %q", name)
+		}
+		suffix, rest := name[:i+j], name[i+j+1:]
+		for _, imp := range p.Types.Imports() {
+			if imp.Path() == suffix || strings.HasSuffix(imp.Path(), "/"+suffix) {
+				return imp.Path() + "." + rest, nil
+			}
+		}
+		return "", fmt.Errorf("cannot resolve %q: no imported package path ends with %q", name, suffix)
+	}
 	parts := strings.Split(name, ".")
 	// closure suffix stays attached to last part
 	switch len(parts) {
@@ -163,16 +178,23 @@ func (P *Program) resolveKey(p *packages.Package, name string) (string, error) {
 				return p.PkgPath + "." + name, nil
 			}
 		}
-		for _, imp := range p.Types.Imports() {
-			if imp.Name() == parts[0] {
-				return imp.Path() + "." + parts[1], nil
+		for _, pref := range []bool{true, false} { // prefer repository packages on a name clash (pkg/sync vs sync)
+			for _, imp := range p.Types.Imports() {
+				if imp.Name() == parts[0] && (strings.HasPrefix(imp.Path(), "github.com/mgtv-tech/redis-GunYu") == pref) {
+					return imp.Path() + "." + parts[1], nil
+				}
 			}
 		}
 		return "", fmt.Errorf("cannot resolve %q: %s is neither a type of %s nor an imported package", name, parts[0], p.PkgPath)
 	case 3:
-		for _, imp := range p.Types.Imports() {
-			if imp.Name() == parts[0] {
-				return imp.Path() + "." + parts[1] + "." + parts[2], nil
+		for _, pref := range []bool{true, false} {
+			for _, imp := range p.Types.Imports() {
+				if imp.Name() == parts[0] && (strings.HasPrefix(imp.Path(), "github.com/mgtv-tech/redis-GunYu") == pref) {
+					// the type must exist there
+					if imp.Scope().Lookup(parts[1]) != nil {
+						return imp.Path() + "." + parts[1] + "." + parts[2], nil
+					}
+				}
 			}
 		}
 		return "", fmt.Errorf("cannot resolve %q: package %s not imported by %s", name, parts[0], p.PkgPath)
@@ -182,6 +204,9 @@ func (P *Program) resolveKey(p *packages.Package, name string) (string, error) {
 
 func funcKey(fn *ssa.Function) string {
 	if fn.Parent() != nil {
+		if n := closureVarName(fn); n != "" {
+			return fmt.Sprintf("%s$%s", funcKey(fn.Parent()), n)
+		}
 		idx := 0
 		for i, a := range fn.Parent().AnonFuncs {
 			if a == fn {
@@ -209,6 +234,40 @@ func funcKey(fn *ssa.Function) string {
 		}
 	}
 	return pkgPath + "." + name
+}
+
+// closureVarName: the local variable a closure is (uniquely) assigned to, e.g. sendFunc := func(...){...}
+func closureVarName(fn *ssa.Function) string {
+	p := fn.Parent()
+	if p == nil {
+		return ""
+	}
+	name := ""
+	for _, b := range p.Blocks {
+		for _, in := range b.Instrs {
+			st, ok := in.(*ssa.Store)
+			if !ok {
+				continue
+			}
+			mc, ok := st.Val.(*ssa.MakeClosure)
+			var f ssa.Value
+			if ok {
+				f = mc.Fn
+			} else if fv, ok := st.Val.(*ssa.Function); ok {
+				f = fv
+			}
+			if f != fn {
+				continue
+			}
+			if a, ok := st.Addr.(*ssa.Alloc); ok && a.Comment != "" {
+				if name != "" && name != a.Comment {
+					return ""
+				}
+				name = a.Comment
+			}
+		}
+	}
+	return name
 }
 
 func (P *Program) contractFor(fn *ssa.Function) *FuncContract {
@@ -262,17 +321,38 @@ func (P *Program) findFunc(key string) *ssa.Function {
 		}
 		for closure != "" {
 			closure = closure[1:]
-			n := 0
 			j := 0
-			for j < len(closure) && closure[j] >= '0' && closure[j] <= '9' {
-				n = n*10 + int(closure[j]-'0')
+			for j < len(closure) && closure[j] != '$' {
 				j++
 			}
+			part := closure[:j]
 			closure = closure[j:]
-			if n < 1 || n > len(fn.AnonFuncs) {
+			n := 0
+			numeric := part != ""
+			for _, c := range part {
+				if c < '0' || c > '9' {
+					numeric = false
+					break
+				}
+				n = n*10 + int(c-'0')
+			}
+			if numeric {
+				if n < 1 || n > len(fn.AnonFuncs) {
+					return nil
+				}
+				fn = fn.AnonFuncs[n-1]
+				continue
+			}
+			var found *ssa.Function
+			for _, a := range fn.AnonFuncs {
+				if closureVarName(a) == part {
+					found = a
+				}
+			}
+			if found == nil {
 				return nil
 			}
-			fn = fn.AnonFuncs[n-1]
+			fn = found
 		}
 		return fn
 	}
